@@ -290,6 +290,11 @@ func extractFile(c context.Context, ls *ipld.LinkSystem, n ipld.Node, outputName
 	if outputName == "" {
 		f = os.Stdout
 	} else {
+		// os.Create follows symbolic links: an earlier entry (or root) of the same archive
+		// may have planted one under this very name, pointing outside the output directory.
+		if fi, lerr := os.Lstat(outputName); lerr == nil && fi.Mode()&os.ModeSymlink != 0 {
+			return fmt.Errorf("refusing to write %s through an existing symlink", outputName)
+		}
 		f, err = os.Create(outputName)
 		if err != nil {
 			return err
